@@ -3,7 +3,7 @@ from reg._common import COMMON_ASSUME
 
 ENTRY = {
     'extractors': ['translate_py.py', 'translate_f90.py'],
-    'lean_files': ['Tables/SrcF90Classify.lean', 'Tables/SrcPyPipeline.lean', 'Tables/SrcF90Triangle.lean', 'Tables/SrcPyNewton.lean', 'Tables/SrcF90Pipeline.lean', 'Tables/SrcPyKernels.lean', 'Tables/SrcF90Kernels.lean', 'Tables/SrcPy.lean', 'Tables/SrcF90.lean', 'Tables/C07.lean', 'Tables/C04.lean', 'Tables/C08.lean', 'Tables/C12.lean', 'Props/C07.lean', 'Props/C07Variants.lean'],
+    'lean_files': ['Tables/SrcPyCurve.lean', 'Tables/SrcF90Classify.lean', 'Tables/SrcPyPipeline.lean', 'Tables/SrcF90Triangle.lean', 'Tables/SrcPyNewton.lean', 'Tables/SrcF90Pipeline.lean', 'Tables/SrcPyKernels.lean', 'Tables/SrcF90Kernels.lean', 'Tables/SrcPy.lean', 'Tables/SrcF90.lean', 'Tables/C07.lean', 'Tables/C04.lean', 'Tables/C08.lean', 'Tables/C12.lean', 'Props/C07.lean', 'Props/C07Variants.lean'],
     'lemma_files': ['Lemmas/ClassifyF90.lean', 'Lemmas/Variants.lean', 'Model/Geometric.lean', 'Model/GeometricInst.lean', 'Model/Newton.lean', 'Model/Helpers.lean', 'Model/Self.lean', 'Lemmas/Subdivide.lean', 'Lemmas/Elevate.lean', 'Model/Basic.lean', 'Model/Curve.lean', 'Model/Area.lean'],
     'script': 'props/c07.py',
     'configs': ['speedup'],
